@@ -26,10 +26,19 @@ type gcase struct {
 	FilterMode string // process | oneshot
 	Setup      string // clone | recheckout
 	Skip       string // env (GIT_LFS_SKIP_SMUDGE=1 on every command) | config (git lfs install --skip-smudge style filter config)
+	Progress   bool   // GIT_LFS_PROGRESS names an absolute usable path on every command of the scenario
+}
+
+// fm: filter mode plus the environment coordinate, as used in classes and triggers
+func (c gcase) fm() string {
+	if c.Progress {
+		return c.FilterMode + "+progress-env"
+	}
+	return c.FilterMode
 }
 
 func (c gcase) class() string {
-	return fmt.Sprintf("git/%s/%s/skip-%s", c.FilterMode, c.Setup, c.Skip)
+	return fmt.Sprintf("git/%s/%s/skip-%s", c.fm(), c.Setup, c.Skip)
 }
 
 type gfile struct {
@@ -123,7 +132,11 @@ func execGit(c gcase, seed int64, o obs, report func(sym, trigger, what string, 
 		must(os.MkdirAll(filepath.Dir(filepath.Join(origin, f.Path)), 0o755))
 		must(os.WriteFile(filepath.Join(origin, f.Path), f.Wt, 0o644))
 	}
-	if res := env.Git(origin, "add", "-A"); !res.OK() {
+	var originEnv []string
+	if c.Progress { // the first `git add` of the content runs with the progress callback as well
+		originEnv = []string{"GIT_LFS_PROGRESS=" + filepath.Join(env.Root, "lfs-progress.log")}
+	}
+	if res := env.Run(sbx.RunOpt{Dir: origin, Env: originEnv}, "git", "add", "-A"); !res.OK() {
 		if res.GoCrash() {
 			report("go-panic", c.class()+"/setup", "git add in the origin repository crashed: "+sbx.Trunc(res.Stderr, 1500), nil)
 			return
@@ -153,7 +166,7 @@ func execGit(c gcase, seed int64, o obs, report func(sym, trigger, what string, 
 		blob := env.PlainGit(origin, "cat-file", "blob", "HEAD:"+f.Path)
 		if f.Kind == "lookalike-content" && (!blob.OK() || !bytes.Equal(blob.Stdout, f.Blob)) {
 			// content that merely begins like a pointer must be stored in full: C08's own subject
-			report("lookalike-not-stored-in-full", fmt.Sprintf("git-%s/origin-add/%s", c.FilterMode, f.Path), fmt.Sprintf("git add of %s (%d bytes beginning with a pointer text) committed %q instead of the pointer to the full content %q", f.Path, len(f.Wt), sbx.Trunc(blob.Stdout, 300), sbx.Trunc(f.Blob, 300)), nil)
+			report("lookalike-not-stored-in-full", fmt.Sprintf("git-%s/origin-add/%s", c.fm(), f.Path), fmt.Sprintf("git add of %s (%d bytes beginning with a pointer text) committed %q instead of the pointer to the full content %q", f.Path, len(f.Wt), sbx.Trunc(blob.Stdout, 300), sbx.Trunc(f.Blob, 300)), nil)
 			return
 		}
 		if !blob.OK() || !bytes.Equal(blob.Stdout, f.Blob) {
@@ -200,6 +213,10 @@ func execGit(c gcase, seed int64, o obs, report func(sym, trigger, what string, 
 		if c.FilterMode == "process" {
 			env.MustGit(work, "config", "filter.lfs.process", "git-lfs filter-process --skip")
 		}
+	}
+	if c.Progress {
+		cmdEnv = append(append([]string{}, cmdEnv...), "GIT_LFS_PROGRESS="+filepath.Join(env.Root, "lfs-progress.log"))
+		o.add("progress_env_cases_git-scenario-"+c.FilterMode, 1)
 	}
 	// precondition: the working tree holds the pointer files
 	for _, f := range files {
@@ -277,7 +294,7 @@ func execGit(c gcase, seed int64, o obs, report func(sym, trigger, what string, 
 		if k == "" {
 			k = "other"
 		}
-		return fmt.Sprintf("git-%s/%s/%s", c.FilterMode, step, k)
+		return fmt.Sprintf("git-%s/%s/%s", c.fm(), step, k)
 	}
 	ok := true
 	check := func(step string, res sbx.Result, allowNotesModified bool, compareHead bool) {
@@ -410,7 +427,7 @@ func execGit(c gcase, seed int64, o obs, report func(sym, trigger, what string, 
 			}
 		}
 		sort.Strings(names)
-		report("object-added-for-pointer", fmt.Sprintf("git-%s/whole-scenario/%s", c.FilterMode, c.Setup), fmt.Sprintf("files under lfs/objects went from %d to %d while only pointer files were re-added", count0, n), map[string]any{"objects": names})
+		report("object-added-for-pointer", fmt.Sprintf("git-%s/whole-scenario/%s", c.fm(), c.Setup), fmt.Sprintf("files under lfs/objects went from %d to %d while only pointer files were re-added", count0, n), map[string]any{"objects": names})
 	}
 	o.add("git_scenarios", 1)
 }
